@@ -144,9 +144,17 @@ PSeg(o, i) == LET k == Pk(o, i, <<"L", "l", "H", "h", "V", "v", "L", "l", "Q", "
 GenPath(o, i) == LET n == Pk(o, i, <<1, 2, 2, 3, 3>>)
                      segs == PSeg(o, i + 3) \o (IF n >= 2 THEN PSeg(o, i + 7) ELSE <<>>) \o (IF n >= 3 THEN PSeg(o, i + 11) ELSE <<>>)
                      z == If1(Yes(o, i + 1, 2, 0), Cmd("Z", <<>>))
-                     second == IF Yes(o, i + 2, 4, 0) THEN <<Cmd("M", <<At(o, i + 2) % 5, At(o, i + 1) % 5>>), Cmd("l", <<2, 0>>), Cmd("l", <<0, 2>>), Cmd("z", <<>>)>>
-                               ELSE IF Yes(o, i + 2, 4, 1) THEN <<Cmd("m", <<1, 1>>), Cmd("h", <<2>>), Cmd("v", << 0 - 2 >>)>> ELSE <<>>
-                 IN <<Cmd("M", <<1 + (At(o, i + 1) % 5), 1 + (At(o, i + 2) % 5)>>)>> \o segs \o z \o second
+                     sx == At(o, i + 2) % 5  sy == At(o, i + 1) % 5
+                     \* a second sub-path: absolute / relative moveto (relative to the current point: the start of the first sub-path after
+                     \* Z, its end otherwise) followed by relative or absolute linetos - the forms whose command letters may be left out
+                     second == CASE At(o, i + 2) % 6 = 0 -> <<Cmd("M", <<sx, sy>>), Cmd("l", <<2, 0>>), Cmd("l", <<0, 2>>), Cmd("z", <<>>)>>
+                                 [] At(o, i + 2) % 6 = 1 -> <<Cmd("m", <<1, 1>>), Cmd("h", <<2>>), Cmd("v", << 0 - 2 >>)>>
+                                 [] At(o, i + 2) % 6 = 2 -> <<Cmd("m", <<sx - 2, sy - 2>>), Cmd("l", <<2, 0>>), Cmd("l", <<0, 2>>), Cmd("z", <<>>)>>
+                                 [] At(o, i + 2) % 6 = 3 -> <<Cmd("M", <<sx, sy>>), Cmd("L", <<sx + 2, sy>>), Cmd("L", <<sx + 2, sy + 2>>), Cmd("z", <<>>)>>
+                                 [] OTHER -> <<>>
+                     \* (a relative moveto at the start of the path data counts from the origin: SVG 8.3.2)
+                     first == Cmd(IF At(o, i) % 2 = 0 THEN "M" ELSE "m", <<1 + (At(o, i + 1) % 5), 1 + (At(o, i + 2) % 5)>>)
+                 IN <<first>> \o segs \o z \o second
 
 Elem(kind, depth, geo, pts, segs, attrs, cls, id) ==
     [kind |-> kind, depth |-> depth, geo |-> geo, pts |-> pts, segs |-> segs, attrs |-> attrs, cls |-> cls, id |-> id]
